@@ -117,7 +117,11 @@ func (e *skEventer) OnNotSupportedEvent(m *service.Message) {
 	defer e.mu.Unlock()
 	e.recheck(fmt.Sprintf("ev%d", e.nev))
 	e.nev++
-	e.out.line("N %d %s", e.n, skCanon(m))
+	s := skCanon(m)
+	e.reads = append(e.reads, m) // kept and re-rendered like the executed ones
+	e.rsnap = append(e.rsnap, s)
+	e.rlast = append(e.rlast, s)
+	e.out.line("N %d %s", e.n, s)
 }
 
 func (e *skEventer) OnReadExecutionEvent(m *service.Message) {
